@@ -196,7 +196,9 @@ static void janet_escape_string_b(JanetBuffer *buffer, const uint8_t *str) {
 static void janet_escape_buffer_b(JanetBuffer *buffer, JanetBuffer *bx) {
     if (bx == buffer) {
         /* Ensures buffer won't resize while escaping */
-        janet_buffer_ensure(bx, bx->count + 5 * bx->count + 3, 1);
+        int64_t needed = 6 * (int64_t) bx->count + 3;
+        if (needed > INT32_MAX) janet_panic("buffer overflow");
+        janet_buffer_ensure(bx, (int32_t) needed, 1);
     }
     janet_buffer_push_u8(buffer, '@');
     janet_escape_string_impl(buffer, bx->data, bx->count);
